@@ -52,6 +52,12 @@ def main(argv=None):
         from . import steps
         extra.append(steps.run_step(step, pid, tier, seed))
 
+    # bounded native driver (stand-in for what the contracts do not reach + counterexample finder)
+    drv = None
+    if not os.environ.get("VF_NO_DRIVER"):
+        from . import native
+        if native.driver_path(pid):
+            drv = native.run_driver(pid, vrun.REPO, tier, seed or 1)
     known = load_known()
     kf = [k for k in known.get("findings", []) if k.get("property") == pid]
     failures = []
@@ -122,6 +128,15 @@ def main(argv=None):
         status = "undecided"
     if new_fail:
         status = "violation"
+    drv_fail = []
+    if drv and drv.get("status") == "failing":
+        kfd = [k.get("driver_case") for k in kf if k.get("driver_case")]
+        for l in drv["failing"]:
+            if any(c and ("case=" + c) in l for c in kfd):
+                continue
+            drv_fail.append(l)
+        if drv_fail:
+            status = "violation"
 
     level = cfg.get("level", "proof")
     coverage = {
@@ -142,7 +157,10 @@ def main(argv=None):
             "rewrites": [w for r in results for w in r["rewrites"]],
             "dropped": [d for r in results for d in r["dropped"]] + cfg.get("dropped", []),
         },
-        "bounded": [b for e in extra for b in e.get("bounded", [])],
+        "bounded": [b for e in extra for b in e.get("bounded", [])] + ([{
+            "kind": "native driver drivers/%s.rs on the real crate (bounded stand-in / counterexample finder; NOT counted in obligations)" % pid,
+            "status": drv.get("status"), "summary": drv.get("summary", ""), "cmd": drv.get("cmd", ""),
+            "seconds": drv.get("seconds"), "failing": drv.get("failing", []), "detail": drv.get("detail", "")[:600]}] if drv and drv.get("status") != "none" else []),
         "unverified_surroundings": cfg.get("unverified_surroundings", []),
         "known_findings": ["%s: %s" % (k["obligation"], k["what"]) for k, _ in known_hit],
         "undecided": undecided,
@@ -162,7 +180,7 @@ def main(argv=None):
         "coverage": coverage,
         "assumptions": cfg.get("assumptions", []) + [e_a for e in extra for e_a in e.get("assumptions", [])],
         "wall_s": round(time.time() - t0, 2),
-        "violations": len(new_fail),
+        "violations": len(new_fail) + len(drv_fail),
     }
     evdir = os.environ.get("VF_EVIDENCE_DIR") or os.path.join(ROOT, "evidence")
     os.makedirs(evdir, exist_ok=True)
@@ -181,8 +199,17 @@ def main(argv=None):
         rpdir = os.path.join(os.environ["VF_EVIDENCE_DIR"], "replays") if os.environ.get("VF_EVIDENCE_DIR") else os.path.join(ROOT, "replays")
         os.makedirs(rpdir, exist_ok=True)
         rp = os.path.join(rpdir, "%s-%d.txt" % (pid, int(time.time())))
-        found_input = False
+        found_input = bool(drv_fail)
         with open(rp, "w") as f:
+            if drv_fail:
+                f.write("property %s: failing inputs found on the REAL code by the bounded driver drivers/%s.rs\n" % (pid, pid))
+                f.write("replay: copy drivers/%s.rs to a2lfile/tests/ of the tree under test and run\n  %s\n\n" % (pid, drv.get("cmd", "")))
+                for l in drv_fail:
+                    f.write(l + "\n")
+                f.write("\n")
+                if not new_fail:
+                    f.write("(all Verus obligations of the functions under contract are discharged: the violation lies in code outside the\n"
+                            " contracts' reach or in a clause the contracts do not express)\n\n")
             f.write("property %s: failed obligations (the contract is discharged on the unchanged tree)\n\n" % pid)
             for fl in new_fail:
                 f.write("OBLIGATION %s\n  at %s %s\n" % (fl["obligation"], fl.get("where", ""), fl.get("detail", "")))
@@ -195,11 +222,15 @@ def main(argv=None):
                 f.write("\n")
         for fl in new_fail:
             print("  failed: %s at %s %s" % (fl["obligation"], fl.get("where", ""), fl.get("detail", "")))
+        for l in drv_fail[:3]:
+            print("  " + l[:300])
         print("VIOLATION property=%s replay=%s%s" % (pid, rp, "" if found_input else " no-failing-input-found"))
         return 1
     if status == "undecided":
         for u in undecided:
             print("UNDECIDED: %s" % u)
+        if drv and drv.get("status") == "ok":
+            print("  (bounded driver found no failing input: %s)" % drv.get("summary", ""))
         return 2
     return 0
 
